@@ -1128,3 +1128,107 @@ def c16():
 
 
 CHECKS["C16"] = c16
+
+
+# =========================================================================== C13
+def export_schedules(ninst, maxsegs, steps):
+    from wfam import _export
+    rows = _export("ExportSched", {"OutFile": '"sched.ndjson"', "NInst": ninst, "MaxSegs": maxsegs, "Steps": "{" + ",".join(map(str, steps)) + "}"},
+                   "sched.ndjson", tag="sched")
+    s = rows[0]["schedules"]
+    s.sort(key=lambda x: (len(x), x))
+    return s
+
+
+def c13():
+    import subprocess
+    from vlib import farm, run_driver
+    ck = Check("C13", "model_checking")
+    q = ck.quick()
+    base = {"Inst": "{1, 2}", "NPages": 3, "NBuf": 3, "PutBeforeBodyWrite": "FALSE", "MaxSwitches": 1000}
+    r = model_check("MC_Pool", base, ["TypeOK", "NonInterference", "NoSharedOwnership"], workers=8, tag="mcpool")
+    st, tr = r["distinct"], r["states"]
+    if not q:
+        r = model_check("MC_Pool", dict(base, Inst="{1, 2, 3}", NPages=2, MaxSwitches=4), ["TypeOK", "NonInterference", "NoSharedOwnership"],
+                        workers=8, tag="mcpool3", timeout=2400)
+        st, tr = st + r["distinct"], tr + r["states"]
+    ck.cov["states"], ck.cov["transitions"] = st, tr
+    model_check("MC_Pool", dict(base, PutBeforeBodyWrite="TRUE"), ["NonInterference"], tag="mcpoolneg", expect_violation="NonInterference")
+    ck.cov["negative_controls"] = ["MC_Pool with PutBeforeBodyWrite: NonInterference violated as required"]
+    progs = build_programs(fixed_programs(["Document", "AllTypes", "BoolHeavy"] if q else ["Document", "AllTypes", "BoolHeavy", "Person", "Deep"]))
+    ok = usable(progs)
+    load_schemas(ok)
+    recs = export_records([(p.key, p.schema) for p in ok], 2, 30, ck.seed)
+    scheds2 = export_schedules(2, 3 if q else 4, [1, 2, 3, 5, 8] if q else [1, 2, 3, 4, 5, 8, 13])
+    scheds3 = export_schedules(3, 3, [1, 3, 7]) if not q else []
+    ck.cov["schedules_exported"] = len(scheds2) + len(scheds3)
+    distinct = set()
+
+    def inst(p, cyc, kind, codec, page, n):
+        rr = [next(cyc) for _ in range(n)]
+        return {"kind": kind, "page": page, "codec": codec, "poff": ck.rng.randrange(16), "ops": ops_of("a" * (n - 1) + "w" + "aw", rr)}
+
+    for pi, p in enumerate(ok):
+        cyc = rec_cycle(recs[p.key]["recs"], ck.seed + pi)
+        pick = scheds2 if q and len(scheds2) <= 400 else ck.rng.sample(scheds2, min(len(scheds2), 400 if q else 3000))
+        for si, sch in enumerate(pick):
+            kinds = ("w", "w") if si % 5 else ("w", "r")
+            insts = [inst(p, cyc, kinds[0], CODECS[si % 3], 2, 4), inst(p, cyc, kinds[1], CODECS[(si // 3) % 3], 3, 5)]
+            if kinds[1] == "r":   # a reader makes thousands of source calls: stretch its segments
+                sch = [[i, n * (60 if i == 2 else 1)] for i, n in sch]
+            p.cases.append({"page": 2, "codec": "snappy", "poff": 0, "ops": [], "sched": {"insts": insts, "schedule": sch, "prior": "dirty" if si % 2 else "clean"}})
+            ck.add("evaluations")
+            if len(sch) >= 2:
+                distinct.add((p.key, json.dumps(sch), kinds, si % 2))
+        for si, sch in enumerate(scheds3[:: max(1, len(scheds3) // 300)] if scheds3 else []):
+            insts = [inst(p, cyc, "w", CODECS[(si + k) % 3], 2, 4) for k in range(3)]
+            p.cases.append({"page": 2, "codec": "snappy", "poff": 0, "ops": [], "sched": {"insts": insts, "schedule": sch, "prior": "dirty"}})
+            ck.add("evaluations")
+            distinct.add((p.key, json.dumps(sch), "www"))
+    ck.cov["distinct_nontrivial"] = len(distinct)
+    ck.cov["rule"] = ("schedules = sequences of up to %d segments <<instance, n calls>> exported by TLC (ExportSched), replayed with 2 (thorough: also 3) instances "
+                      "of the real generated writer/reader on separate goroutines behind blocking sink/source gates under GOMAXPROCS(1), with clean and "
+                      "deliberately dirtied buffer pools; every sink call of every instance is compared with the same call of its solo run; non-trivial = at "
+                      "least one context switch; plus a free-running parallel stress under the race detector" % (3 if q else 4))
+    ck.cov["exhaustive"] = bool(q and len(scheds2) <= 400)
+    run_programs(ok, "c13", timeout=2400, env_extra={"VERIF_GOMAXPROCS": "1"})
+    sw = sum(e.get("switches", 0) for p in ok for e in p.events if e.get("ev") == "Sched")
+    ck.cov["context_switches_replayed"] = sw
+    ck.sample({"program": ok[0].key, "schedule": ok[0].cases[len(ok[0].cases) // 2]["sched"]["schedule"], "instances": "writer(snappy,page 2) || writer(gzip,page 3)"})
+    judge_programs(ck, ok, ["C13", "HARNESS"], "c13",
+                   describe=lambda p, c: "%s|%s|%s" % (p.key, json.dumps(c["sched"]["schedule"]), c["sched"]["prior"]),
+                   confirm_program=True, env_extra={"VERIF_GOMAXPROCS": "1"}, max_report=3)
+    # ---- data-race freedom: the race detector on a free-running stress (not decided by the specification)
+    fm = farm()
+    p0 = ok[0]
+    rb = fm.build(p0.key, p0.src, race=True)
+    race = {"built": rb["status"] == "ok", "races": 0}
+    if rb["status"] != "ok":
+        raise HarnessError("race build failed: " + rb["detail"])
+    cyc = rec_cycle(recs[p0.key]["recs"], ck.seed)
+    insts = [inst(p0, cyc, "w", CODECS[k % 3], 2 + k, 6) for k in range(3)] + [inst(p0, cyc, "r", "snappy", 2, 5)]
+    job = {"cases": [{"id": "0:0", "page": 2, "codec": "snappy", "poff": 0, "ops": [], "sched": {"insts": insts, "schedule": [], "prior": "clean", "stress": 4 if q else 16}}]}
+    d = rb["dir"]
+    json.dump(job, open(os.path.join(d, "job_race.json"), "w"))
+    rr = subprocess.run([os.path.join(d, "drv"), os.path.join(d, "job_race.json"), os.path.join(d, "ev_race.ndjson")], capture_output=True, text=True, timeout=1800)
+    race["races"] = rr.stderr.count("WARNING: DATA RACE")
+    evs = [json.loads(l) for l in open(os.path.join(d, "ev_race.ndjson")) if l.strip()]
+    stress = [e for e in evs if e.get("ev") == "Stress"]
+    if not stress:
+        raise HarnessError("race stress produced no result: %s" % rr.stderr[-800:])
+    race["runs"] = stress[0]["runs"]
+    ck.cov["race_detector"] = race
+    from vlib import judge
+    v, _ = judge(evs, ["C13", "HARNESS"], tag="c13race", chunks=1)
+    if race["races"] > 0:
+        ck.report("race-stress:" + p0.key, "DataRace", {"stderr": rr.stderr[:3000]})
+    for x in v:
+        if x["prop"] == "C13":
+            ck.report("race-stress:" + p0.key, x["conjunct"], {"events": stress})
+    ck.assumptions += ["sync.Pool under GOMAXPROCS(1) hands the most recently released buffer to the next Get (self-tested in every replay; GC is off during a replay)",
+                       "the harness can switch instances only at sink/source calls; the model interleaves at every pool operation (a superset)",
+                       "data-race freedom is the race detector's verdict on the stress run, not the specification's"]
+    ck.finish()
+
+
+CHECKS["C13"] = c13
